@@ -356,7 +356,17 @@ pub fn toy_pk(fam: FamId, secret: &[u8; 32]) -> Vec<u8> {
     let h = keccak256(&[b"tiny-pk".as_ref(), secret].concat());
     match fam {
         FamId::Nano => vec![h[0] & 0x7f],
-        FamId::Big => [&h[..], &keccak256(&h)[..]].concat(),
+        FamId::Big => {
+            // 64, 65, 66, 96 or 130 bytes, chosen by the secret (a BLS-sized key is 96 bytes)
+            let len = [64usize, 65, 66, 96, 130][(secret[30] % 5) as usize];
+            let mut v = h.to_vec();
+            while v.len() < len {
+                let n = keccak256(&v);
+                v.extend_from_slice(&n);
+            }
+            v.truncate(len);
+            v
+        }
         _ => h[..4].to_vec(),
     }
 }
@@ -391,7 +401,7 @@ pub fn tiny_verify(pk: &[u8], msg: &[u8], sig: &[u8]) -> crypto::Verdict {
     let ok = match pk.len() {
         4 => sig == tiny_sign(pk, msg).as_slice() || (sig.len() == mid_len(msg) && sig == tiny_sign_len(pk, msg, sig.len()).as_slice()),
         1 => pk[0] < 0x80 && sig == tiny_sign_len(pk, msg, 1).as_slice(),
-        64 => sig == tiny_sign_len(pk, msg, 64).as_slice(),
+        64..=130 => sig == tiny_sign_len(pk, msg, 64).as_slice(),
         _ => false,
     };
     if ok {
@@ -417,7 +427,7 @@ impl EnrKey for TinyKey {
         };
         let it = crate::refmodel::rlp::decode_exact(raw).map_err(|_| alloy_rlp::Error::Custom("bad rlp"))?;
         let b = it.as_str().ok_or(alloy_rlp::Error::Custom("not a string"))?;
-        if !(b.len() == 4 || b.len() == 64 || (b.len() == 1 && b[0] < 0x80)) {
+        if !(b.len() == 4 || (64..=130).contains(&b.len()) || (b.len() == 1 && b[0] < 0x80)) {
             return Err(alloy_rlp::Error::Custom("bad key length"));
         }
         Ok(TinyPub(b.to_vec(), clash))
@@ -558,6 +568,12 @@ impl Pool {
             if let Some(i) = want_e.iter().position(|b| *b == pk[0]) {
                 want_e.remove(i);
                 ed.push(s);
+            }
+        }
+        // seeds whose public key has a rare byte shape (committed corpus)
+        for r in crate::sigshapes::edkeys() {
+            if !ed.contains(&r.seed) {
+                ed.push(r.seed);
             }
         }
         Pool { secp, ed, secp_edge_coord }
